@@ -134,6 +134,15 @@ func (hp *holePuncher) directConnect(rp peer.ID) error {
 
 	// hole punch
 	for i := 1; i <= maxRetries; i++ {
+		// A direct connection may have appeared since the last check, e.g. the
+		// remote's punch of the previous attempt arriving just after ours gave
+		// up. Then there is nothing left to coordinate, and the coordination
+		// stream of a retry would be opened over that direct connection.
+		if getDirectConnection(hp.host, rp) != nil {
+			log.Debug("direct connection appeared, no need for a hole punch", "source_peer", hp.host.ID(), "destination_peer", rp)
+			return nil
+		}
+
 		isClient := false
 		// On the last attempt we switch roles in case the connection is
 		// being made with a client with switched roles. Common for peers
